@@ -393,6 +393,8 @@ pub fn run_enums(seed: u64, n: usize, out: &mut Out) {
         let mut forms: Vec<String> = vec![
             "x".into(), "x()".into(), "x(a, b)".into(), "x(\"lit\")".into(), "x = 5".into(), "x = \"zzz\"".into(), "x(zzz)".into(),
             "x = true".into(), "x(a, b, c)".into(), "x(5)".into(), "x(zzz = 1)".into(),
+            // arity is judged before the form of the first item
+            "x(\"lit\", a)".into(), "x(5, zzz = 1)".into(), "x(true, a, b)".into(), "x('c', \"d\")".into(), "x(a, \"lit\")".into(),
         ];
         for v in info.valid.iter().chain(info.invalid.iter()) {
             forms.push(format!("x{}", v));
@@ -407,6 +409,8 @@ pub fn run_enums(seed: u64, n: usize, out: &mut Out) {
                 forms.push(format!("x({}())", c));
                 forms.push(format!("x({}(zzz = 1))", c));
                 forms.push(format!("x({}, {})", c, c));
+                forms.push(format!("x(\"{}\", {})", c, c));
+                forms.push(format!("x(7, {} = 1, {})", c, c));
                 forms.push(format!("x(ns::{})", c));
                 forms.push(format!("x(other::{} = 1)", c));
                 forms.push(format!("x(::{})", c));
